@@ -72,10 +72,31 @@ def ctor(rng, clsname, multi=False):
     if clsname in ('SO3', 'SE3', 'UnitQuaternion'):
         if multi:
             n = int(rng.integers(2, 5))
-            k = rng.integers(4)
+            k = rng.integers(9)
             if k < 3:
                 return ['Rx', 'Ry', 'Rz'][k], [_angs(rng, unit, n)], {'unit': unit}
-            return 'Rand', [], {'N': n, '_seed': int(rng.integers(2 ** 31))}
+            if k == 3:
+                return 'Rand', [], {'N': n, '_seed': int(rng.integers(2 ** 31))}
+            # array / list forms that build a sequence
+            if clsname == 'UnitQuaternion':
+                if k < 6:
+                    return '', [[gen.vec(rng, 4, 1e-3, 1e3) for _ in range(n)]], {}          # list of 4-vectors, normalised
+                if k < 8:
+                    return '', [np.array([gen.vec(rng, 4, 1e-3, 1e3) for _ in range(n)])], {}     # N x 4 array
+                return 'Rand', [], {'N': n, '_seed': int(rng.integers(2 ** 31))}
+            if k == 4:
+                return 'Eul', [np.array([_angs(rng, unit) for _ in range(n)])], {'unit': unit}
+            if k == 5:
+                return 'RPY', [np.array([_angs(rng, unit) for _ in range(n)])], {'unit': unit, 'order': ORDERS[rng.integers(6)]}
+            if k == 6 and clsname == 'SE3':
+                return 'Exp', [[np.r_[gen.transl(rng), gen.unit_axis(rng) * gen.rot_angle(rng)] for _ in range(n)]], {}
+            if k == 6:
+                return 'Exp', [np.array([gen.unit_axis(rng) * gen.rot_angle(rng) for _ in range(n)])], {'so3': False}
+            if k == 7 and clsname == 'SE3':
+                return '', [np.array([gen.transl(rng) for _ in range(n if n != 3 else 4)])], {}     # N x 3 translations
+            if clsname == 'SE3':
+                return ['Tx', 'Ty', 'Tz'][rng.integers(3)], [[float(gen.sign(rng) * gen.logu(rng, 1e-6, 1e6)) for _ in range(n)]], {}
+            return '', [[gen.so3(rng) for _ in range(n)]], {}
         if clsname == 'UnitQuaternion' and r < 0.7:
             nm, args, kw = rotation_ctor(rng, clsname)
             if nm == 'Exp':          # UnitQuaternion has no Exp
